@@ -266,6 +266,7 @@ def run(ck, tier):
     run_obligations(ck, F)
     run_stored(ck, F)
     run_anchors(ck, F)
+    run_inputs(ck, F)
     run_overflow(ck, F)
     api.must_be_unsafe(ck, F, "C09.unchecked-api-is-unsafe", ["arrow_buffer", "arrow_data", "arrow_array", "arrow_schema", "arrow_row", "arrow_ipc", "arrow_select", "arrow_cast"],
                        UNSAFE_NAME, UNSAFE_EXEMPT, floor=60)
@@ -275,3 +276,49 @@ def run(ck, tier):
     ck.note("Decided: the validator routing matrix over all DataType constructors, retention of the per-operand checks of 20 checked constructors, "
             "overflow guard, unsafe-ness of every unchecked/FFI entry point, private representation. Not decided: arithmetic inside each validator.")
     return F.info
+
+
+VALIDATOR_NAME = re.compile(r"::(validate\w*|check_bounds|check_run_ends|get_valid_child_data|get_single_valid_child_data|typed_offsets|typed_buffer|try_new)$")
+
+
+def validator_units(F):
+    tab = json.load(open(os.path.join(os.path.dirname(__file__), "tables", "c09_validation_anchors.json")))
+    units = sorted(tab)
+    for fn in F.crate("arrow_data").fns:
+        if "mir" in fn and "parent" not in fn and VALIDATOR_NAME.search(fn["id"]) and \
+                (fn["id"].startswith("arrow_data::data::ArrayData::") or fn["id"].startswith("arrow_data::byte_view::")):
+            units.append(fn["id"])
+    return units
+
+
+def checked_input_table(F):
+    out = {}
+    for u in validator_units(F):
+        fn = F.resolve(u)
+        if fn is None:
+            continue
+        r = flow.checked_inputs(F, fn)
+        if r:
+            out[u] = {sig: len(names) for sig, names in sorted(r.items())}
+    return out
+
+
+def run_inputs(ck, F):
+    tab = json.load(open(os.path.join(os.path.dirname(__file__), "tables", "c09_checked_inputs.json")))
+    ck.rule("C09.validator-inputs-checked", "in each validator / checked constructor (with the closures nested in it), every input that decides a rejecting branch on the "
+            "reference tree -- an argument, a captured variable or one of their fields, counted per (type, field path) -- still does: a check that stops "
+            "looking at one of its operands (`range.start`, `max_value`, the previous offset) is a dropped validation", floor=sum(len(v) for v in tab.values()))
+    for u, sigs in sorted(tab.items()):
+        fn = F.resolve(u)
+        if fn is None:
+            ck.missing_anchor(u, "C09.validator-inputs-checked")
+            continue
+        got = flow.checked_inputs(F, fn)
+        for sig, n in sorted(sigs.items()):
+            key = "%s#%s" % (u, sig)
+            have = got.get(sig, set())
+            if len(have) >= n:
+                ck.ok("C09.validator-inputs-checked", key, "%d input(s) decide a rejecting branch: %s" % (len(have), sorted(have)))
+            else:
+                ck.bad("C09.validator-inputs-checked", key, "%s: %d input(s) of type/field `%s` decide a rejecting branch (%s); the reference tree has %d: a validation no longer "
+                       "looks at one of its operands" % (u, len(have), sig, sorted(have), n), "%s:%s" % (fn["file"], fn["line"]))
